@@ -220,7 +220,7 @@ fn exec(b: &Base, faults: &[Fault], key: &str) -> CaseOut {
     let fdesc: Vec<Value> = faults.iter().map(|f| json!({"at_call": f.at, "answer": KINDS[f.kind].0, "persistent": f.persistent, "during_jacobian_differencing": f.in_jac})).collect();
     let desc = json!({"key": key, "cfg": c.json(&p.name), "faults": fdesc, "outcome": r.outcome_name(), "rhs_calls": r.st.n_ode});
     if std::env::var("VERIF_DEBUG").is_ok() {
-        println!("DBG c04 {} outcome {} rhs {} jac-rhs {} sol {:?}", key, r.outcome_name(), r.st.n_ode, r.st.n_ode_in_jac, r.sol().map(|s| (s.status, s.t.len(), s.t.last().copied(), s.nstep, s.naccpt, s.nrejct, s.njev, s.nlu)));
+        println!("DBG c04 {} outcome {} rhs {} jac-rhs {} njac {} t in [{:e},{:e}] sol {:?}", key, r.outcome_name(), r.st.n_ode, r.st.n_ode_in_jac, r.st.n_jac, r.st.tmin, r.st.tmax, r.sol().map(|s| (s.status, s.t.len(), s.t.last().copied(), s.nstep, s.naccpt, s.nrejct, s.njev, s.nlu)));
     }
     let mut vs: Vec<(String, String)> = vec![];
     let mut tags = vec![];
